@@ -3,6 +3,6 @@ from ..ties_expr import lex_tie, eval_tie
 
 SPEC = Spec(
     pid='C07',
-    coq_needs=['Base', 'Expr', 'ExprTie', 'Properties/C07'],
+    coq_needs=['Base', 'Expr', 'ExprTie', 'ExprProofs', 'ExprParseProofs', 'Properties/C07'],
     ties=[lex_tie(), eval_tie()],
 )
